@@ -842,6 +842,19 @@ def check_impl_alone(ctx, c, d, pts, stats, report):
             if cells[k][5] > 0 and cells[k][7] not in (-1, cells[k][8]):
                 report("leaf %d: count[0] = %d but cum_size = %d" % (k, cells[k][7], cells[k][8]))
                 break
+    # Properties_C18.cell_mass_is_count_inside on the real tree (exact stream: x -/+ hw is exact in binary64)
+    if not c["kind"].startswith("tol") and len(set(d["ins"])) == len(d["ins"]):
+        PF = [(float(pts[i][0]), float(pts[i][1])) for i in d["ins"]]
+        for ci, cell in enumerate(cells):
+            x, y, hw, hh = cell[1:5]
+            x0, x1, y0, y1 = x - hw, x + hw, y - hh, y + hh
+            closed = sum(1 for q in PF if x0 <= q[0] <= x1 and y0 <= q[1] <= y1)
+            strict_ = sum(1 for q in PF if x0 < q[0] < x1 and y0 < q[1] < y1)
+            stats["cell_count_checks"] += 1
+            if not (strict_ <= cell[8] <= closed):
+                report("cell %d: cum_size %d, but %d inserted points lie strictly inside its box and %d inside the "
+                       "closed box" % (ci, cell[8], strict_, closed))
+                break
     # depth
     def depth_of(k):
         return 1 if kids[k] is None else 1 + max(depth_of(j) for j in kids[k])
@@ -1457,7 +1470,7 @@ def new_stats():
             "force_full": 0, "exact_ties": 0, "f25_cracks": 0, "auto_roots": 0, "bound_checks": 0, "cells_compared": 0, "max_depth": 0,
             "internal_cells": 0, "leaves_with_absorbed_duplicates": 0, "cases_split_tree_with_duplicates": 0,
             "cases_point_on_root_split_line": 0, "order_groups": 0, "order_pairs": 0, "float_replays": 0, "float_replay_forces": 0,
-            "float_replay_near_tie": 0, "grad_cases": 0, "grad_replayed": 0, "grad_exact": 0, "grad_bound": 0}
+            "float_replay_near_tie": 0, "grad_cases": 0, "grad_replayed": 0, "grad_exact": 0, "grad_bound": 0, "cell_count_checks": 0}
 
 
 def run_batch(ctx, exe, mexe, cases, stats, with_model=True):
@@ -1557,7 +1570,9 @@ def run(ctx):
              "the summary criterion, random insertion orders, every permutation of small mixed sets, six root boxes "
              "(square, rectangular, offset); thetas 0, 2^-60, 2^-20, 1/64, 1/8, 1/2, 1, 2.  Exact stream: every cell of the "
              "real tree equals the extracted model's (boxes, size, index, count, cum_size exactly; center_of_mass and "
-             "force sums under a rounding bound), the extracted struct_okb runs on the real dump.  Tolerance stream "
+             "force sums under a rounding bound), the extracted struct_okb runs on the real dump; on the dump itself: exact means, "
+             "count sandwich per cell, theta=0 vs O(N^2) sums, proved (9 theta + 8 theta^2) bound, theta=2^-60 = theta=0, "
+             "order independence between real trees, insert false <=> outside the root.  Tolerance stream "
              "(tol_auto, tol_ulp; a TEST): mean-centred constructor on random doubles and points one ulp from split "
              "lines, checked on the dump alone and against a binary64 replay of the shipped algorithm.  grad: "
              "TSNE::computeGradient / evaluateError on random, dyadic and coincident maps.  non-trivial = at least 3 insertions and 2 distinct points; distinct by "
